@@ -294,11 +294,67 @@ def gen_crcv(rng, n):
     return L
 
 
+def gen_xmit(rng, n):
+    """the sender side (real coap_handle_request_send_block / coap_handle_response_send_block on a real lg_xmit)"""
+    L = []
+    for _ in range(n):
+        szx = rng.randrange(7)
+        c = 1 << (szx + 4)
+        ln = rng.choice([rng.randrange(1, 9 * c), rng.randrange(1, 6) * c, rng.randrange(1, 6) * c + 1, rng.randrange(1, 6) * c - 1])
+        nb = (ln + c - 1) // c
+        # ---- server, Block2: requests in order / repeated / random / beyond the end / changed size; response PDUs with
+        # plenty of room and with room around the size of a full block (5.00 path)
+        order = list(range(1, nb))
+        r = rng.random()
+        if r < 0.3:
+            rng.shuffle(order)
+        for _ in range(rng.choice([0, 1, 2])):
+            order.insert(rng.randrange(len(order) + 1), rng.randrange(nb + 2))
+        items = []
+        for k in order:
+            s_ = szx if rng.random() < 0.92 else rng.randrange(7)
+            items.append("%d.%d" % (k, s_))
+        mtu2 = rng.choice([1152, 1152, c + rng.randrange(8, 24), rng.randrange(10, c + 40)])
+        L.append("xmit2 %d %d %d %d %s" % (szx, ln, rng.randrange(256), mtu2, ",".join(items) or "-"))
+        # ---- client, Block1: 2.31 in order / duplicated / stale, early renegotiation to a smaller or a LARGER size,
+        # final 2.04, error codes
+        mtu = rng.choice([1152, 1152, 1500, rng.randrange(100, 1300)])
+        cs = rng.choice(["-", "-", str(szx)])
+        ceff = min(c if cs != "-" else 1024, 1 << max(4, (max(mtu - 80, 16)).bit_length() - 1))
+        ln1 = rng.choice([rng.randrange(1, 9 * ceff), rng.randrange(1, 6) * ceff, rng.randrange(1, 6) * ceff + 1])
+        eff = ceff.bit_length() - 5
+        nb1 = (ln1 + ceff - 1) // ceff
+        items = []
+        cur = eff
+        k = 0
+        while k < nb1 and len(items) < 40:
+            last = (k == nb1 - 1)
+            code = 68 if last else 95
+            rr = rng.random()
+            if rr < 0.08 and cur > 0 and not last:               # early / late renegotiation to a smaller size
+                new = rng.randrange(cur)
+                k = ((k + 1) << (cur - new)) - 1
+                cur = new
+                nb1 = (ln1 + (16 << cur) - 1) // (16 << cur)
+                items.append("95.%d.%d" % (k, cur))
+            elif rr < 0.11 and cur < 6:                          # a server asking for a larger size (ignored by the client)
+                items.append("95.%d.%d" % (k, rng.randrange(cur + 1, 7)))
+            else:
+                items.append("%d.%d.%d" % (code, k, cur))
+            if rng.random() < 0.1:
+                items.append(rng.choice([items[-1], "95.%d.%d" % (rng.randrange(k + 1), cur)]))
+            if rng.random() < 0.03:
+                items.append(rng.choice(["141", "136", "68", "95"]))
+            k += 1
+        L.append("xmit1 %s %d %d %d %s" % (cs, ln1, rng.randrange(256), mtu, ",".join(items) or "-"))
+    return L
+
+
 def generate(ctx, escalate=False):
     n = 3000 if ctx.thorough() else 400
     if escalate:
         n *= 3
-    return gen_layer_a(ctx, n) + gen_crcv(ctx.rng, n * 2) + gen_layer_b(ctx, n * 3)
+    return gen_layer_a(ctx, n) + gen_crcv(ctx.rng, n * 2) + gen_xmit(ctx.rng, n) + gen_layer_b(ctx, n * 3)
 
 
 # --------------------------------------------------------------------------
@@ -453,6 +509,34 @@ def spec_layer_a(ctx, c):
                     return "the response handler was given %s as the body; the server's body is %d bytes hash %s" % (o, ln, fnv(body))
                 if not single and (off + l > ln and l or h != fnv(body[off:off + l])):
                     return "the response handler was given %s, which is not a slice of the server's body" % o
+    elif op in ("xmit1", "xmit2"):
+        ln, seed = int(w[2]), int(w[3])
+        body = mk_body(ln, seed)
+        if not re.search(r" rel=1$", i):
+            return "release callback did not run exactly once for the body handed to libcoap: " + i[-40:]
+        parts = re.sub(r" rel=\d+$", "", i).split(" ")
+        outs = [parts[0]] + (parts[2].split(",") if len(parts) > 2 else [])
+        items = [None] + (w[5].split(",") if w[5] != "-" else [])
+        cur = re.search(r" lg=(-?\d+)", i)
+        cur = int(cur.group(1)) if cur else -1
+        larger = False
+        for it, o in zip(items, outs):
+            # a response asking for a LARGER block size than the client currently uses is outside what a libcoap server does
+            # (the client then computes M in the old unit): the More bit is not judged from there on
+            if op == "xmit1" and it and it.count(".") == 2 and int(it.split(".")[2]) > cur:
+                larger = True
+            st = re.search(r"/(\d+)\.\d+\.-?\d+$", o)
+            if st:
+                cur = int(st.group(1))
+            mm = re.match(r"b(\d+)\.(\d+)\.(\d+):(\d+):([0-9a-f]{8})", o)
+            if not mm:
+                continue
+            num, m_, sz, l, h = int(mm.group(1)), int(mm.group(2)), int(mm.group(3)), int(mm.group(4)), mm.group(5)
+            cs = 1 << (sz + 4)
+            if num * cs >= ln or l != min(cs, ln - num * cs) or h != fnv(body[num * cs:num * cs + l]):
+                return "block message %s does not carry the slice of the body for its NUM/SZX" % o
+            if not larger and m_ != (1 if (num + 1) * cs < ln else 0):
+                return "block message %s has the wrong More bit for a %d-byte body" % (o, ln)
     elif op == "srcv":
         szx, ln, seed = int(w[1]), int(w[2]), int(w[3])
         body = mk_body(ln, seed)
@@ -676,7 +760,7 @@ def classify(c):
 
 
 def search(ctx, tie_breaks, proof):
-    return gen_layer_a(ctx, 1500) + gen_crcv(ctx.rng, 3000)
+    return gen_layer_a(ctx, 1500) + gen_crcv(ctx.rng, 3000) + gen_xmit(ctx.rng, 1500)
 
 
 def known(ctx, c):
